@@ -518,6 +518,18 @@ partial def anteLoop (stdin : IO.FS.Stream) (a : AState) : IO Unit := do
       for d in dumpAnte r.a do
         IO.println ("| " ++ d)
       anteLoop stdin r.a
+    else if l == "genesis" then
+      -- the application exported and a fresh one initialised from the document: the two modules' part of it
+      match importG a.s (jsonG (exportG a.s)) with
+      | none =>
+        IO.println "< panic"
+        anteLoop stdin a
+      | some s2 =>
+        let same := dumpGenesis (exportG s2) == dumpGenesis (exportG a.s)
+        IO.println ("< ok " ++ (if same then "same" else "differs"))
+        for d in dumpModules s2 do
+          IO.println ("| " ++ d)
+        anteLoop stdin a
     else if l == "block" then
       let hb := a.s.h
       let (a', r) := realBlock a
